@@ -49,6 +49,9 @@ def plan(tier):
     # saving in between), save and load again
     for f in ("SamplerEffect", "Sampler", "Sampler"):
         descs.append({"kind": "edit_history", "focus": f, "examples": per})
+    # instruments whose sample records have the older, shorter layout (no start position): loaded, a sample field
+    # assigned, saved and loaded again
+    descs.append({"kind": "short_records", "examples": per})
     return descs
 
 
@@ -430,9 +433,59 @@ def run_edit_history(ctx, desc):
     run_property(ctx, c06.edit_case(focus=desc["focus"]), body, desc["examples"], tag="edit_history", bucket="edit_history")
 
 
+SAMPLE_FIELD_VALUES = [("start_pos", 1), ("start_pos", 0x7FFFFFFF), ("finetune", -128), ("relative_note", 127), ("volume", 1), ("panning", -128), ("loop_start", 2), ("loop_len", 1)]
+
+
+@st.composite
+def short_record_case(draw):
+    if draw(st.integers(0, 3)) == 0:
+        src = {"src": "fixture", "file": "sampler.sunsynth"}
+        present = [0, 1, 2]
+    else:
+        ms = draw(build.module_spec(in_project=False, depth=1, tname="Sampler").filter(lambda m_: m_["payload"].get("samples")))
+        src = {"src": "synth", "spec": ms}
+        present = [i for i, _ in ms["payload"]["samples"]]
+    src["transform"] = "short_sample_records"
+    eds = []
+    for _ in range(draw(st.integers(1, 2))):
+        f, v = draw(st.sampled_from(SAMPLE_FIELD_VALUES))
+        eds.append(["mod", -1, "pay", "s_sample_field", draw(st.sampled_from(present)), f, v])
+    src["edits"] = eds
+    src["saves"] = [draw(st.sampled_from([None, "read", "clone"])) for _ in eds]
+    return src
+
+
+def run_short_records(ctx, desc):
+    from checks import c06
+
+    def body(case):
+        ctx.case()
+        try:
+            labels, changed = c06.run_case(ctx, case)
+        except PropertyViolation as v:
+            raise PropertyViolation("C16.short_records." + v.sub_oracle.split(".", 1)[1], v.detail, key="C16.short_records." + v.key.split(".", 1)[1])
+        ctx.label("older_sample_record_layout_edited")
+        if changed:
+            ctx.mark_nontrivial(case)
+        if len(repr(case)) < 1000:
+            ctx.sample(case)
+
+    # every field of the list once on the fixture, then generated instruments
+    for f, v in SAMPLE_FIELD_VALUES:
+        case = {"src": "fixture", "file": "sampler.sunsynth", "transform": "short_sample_records", "edits": [["mod", -1, "pay", "s_sample_field", 1, f, v]], "saves": [None]}
+        try:
+            body(case)
+        except PropertyViolation as v_:
+            ctx.check(False, v_.sub_oracle, v_.detail, key=v_.key, recipe={"case": case})
+    run_property(ctx, short_record_case(), body, desc["examples"], tag="short_records", bucket="short_records")
+
+
 def run_shard(ctx, desc):
     if desc["kind"] == "edit_history":
         run_edit_history(ctx, desc)
+        return
+    if desc["kind"] == "short_records":
+        run_short_records(ctx, desc)
         return
     k = desc["kind"]
     if k == "legacy":
@@ -475,7 +528,7 @@ def run_shard(ctx, desc):
 
 
 def replay(ctx, doc):
-    if doc["recipe"].get("tag") == "edit_history":
+    if doc["recipe"].get("tag") in ("edit_history", "short_records") or (isinstance(doc["recipe"].get("case"), dict) and doc["recipe"]["case"].get("transform")):
         from checks import c06
 
         c06.run_case(ctx, doc["recipe"]["case"])
